@@ -251,7 +251,9 @@ func runT[T constraints.Float](op string, t *tokens, margin float64) string {
 	if !sameBits(a, a0) || !sameBits(b, b0) {
 		return "operands-modified"
 	}
-	if !emptyAgrees(r) {
+	// Polygon.Empty is the library's meaning of "empty polygon": it is cross-checked on the result AND on the operands
+	// (operands include nil, zero contours, and polygons whose contours have no vertex)
+	if !emptyAgrees(r) || !emptyAgrees(a) || !emptyAgrees(b) {
 		return "empty-mismatch"
 	}
 	// the result must not share memory with an operand: overwrite the operands, the result must stay as it was
@@ -397,7 +399,7 @@ func runChain[T constraints.Float](t *tokens) string {
 				return sb.String() + "operands-modified"
 			}
 		}
-		if !emptyAgrees(r) {
+		if !emptyAgrees(r) || !emptyAgrees(a) || !emptyAgrees(b) {
 			return sb.String() + "empty-mismatch"
 		}
 		keep := deepCopy(r)
